@@ -37,12 +37,20 @@ def run(rep, tier, seed):
     n = 120 if tier == "quick" else 1500
     cases = lf.bnf_cases(rng, n, tts=("LALR", "LALR_PAGER"), algo="LR",
                          max_len=4 if tier == "quick" else 5, n_sent=8, n_mut=8)
-    lf.run_cases(cases, extra_requests=lambda c: ["rawdet"])
+    def extra(c):
+        kinds = {t: i + 1 for i, t in enumerate(c.gram.terms)}
+        rq = ["rawdet", "cert complete-parts", "cert c01"]
+        for (_, _, _, meta) in c.inputs:
+            ks = ",".join(str(kinds[t]) for t in meta["toks"]) or "-"
+            rq.append("tlr " + ks)
+        return rq
+    lf.run_cases(cases, extra_requests=extra)
     check_cases(rep, cases, proofs_ok)
 
 
 def check_cases(rep, cases, proofs_ok):
     corr_breaks = []
+    tlr_breaks = []
     failures = []
     distinct = set()
     for c in cases:
@@ -59,8 +67,19 @@ def check_cases(rep, cases, proofs_ok):
             failures.append((c, None, "table has conflicts although items/lookaheads are deterministic"))
             continue
         rep.count("grammars_in_scope:" + c.settings[1])
+        if len(c.extra) > 2:
+            certs_ok = c.extra[2] == "1" and "=0" not in c.extra[1]
+            rep.count("certs_" + ("pass" if certs_ok else "FAIL:" + c.extra[1]))
+            if not certs_ok:
+                failures.append((c, None, "Cert.complete / Cert.structural fail on the compiler's table (hypotheses of "
+                                          "C01_lr_accepts_exactly not met): " + c.extra[1]))
         for k in oracle_case(rep, c):
             failures.append((c, k, "impl Ok != oracle sentence"))
+        # token-level model (the one C01's theorems are about) next to the real parser
+        for k, (r, tl) in enumerate(zip(c.results, c.extra[3:])):
+            rep.count("tlr_compared")
+            if (lf.klass(r) == "ok") != (tl == "accept"):
+                tlr_breaks.append((c, k, tl))
         for k, (r, m) in enumerate(zip(c.results, c.model)):
             rep.count("correspondence_compared")
             if not lf.same_answer(r, m):
@@ -84,6 +103,11 @@ def check_cases(rep, cases, proofs_ok):
             rep.violation(dict(c.describe(k), why="correspondence corr:lr broken (model LR.parse != real LRParser); "
                                "no input found on which Ok/Err disagrees with the membership oracle",
                                kind="impl!=model", n_breaks=len(corr_breaks)), no_input=True)
+        elif tlr_breaks:
+            c, k, tl = tlr_breaks[0]
+            rep.violation(dict(c.describe(k), why="correspondence corr:tlr broken (token-level model tparse answers " + tl +
+                               "); no input found on which Ok/Err disagrees with the membership oracle",
+                               kind="impl!=model", n_breaks=len(tlr_breaks)), no_input=True)
         elif not proofs_ok:
             rep.violation({"why": "Lean obligations of Rustemo.Props.C01 no longer check",
                            "obligations": [o for o in rep.obligations if not o[1]]}, no_input=True)
@@ -99,7 +123,9 @@ def replay(rep, path):
     g = parse_bnf(p["grammar"])
     toks = [t for ch in p["input"] if not ch.isspace() for t, c in g.terms.items() if c == ch]
     c = lf.Case(p["grammar"], p["settings"].split(" "), [(p.get("algo", "LR"), p.get("partial", "0"), p["input"], {"toks": toks})], gram=g)
-    lf.run_cases([c], extra_requests=lambda c: ["rawdet"])
+    kinds = {t: i + 1 for i, t in enumerate(g.terms)}
+    lf.run_cases([c], extra_requests=lambda c: ["rawdet", "cert complete-parts", "cert c01",
+                                                 "tlr " + (",".join(str(kinds[t]) for t in toks) or "-")])
     check_cases(rep, [c], True)
 
 
